@@ -442,6 +442,17 @@ class Transaction:
                 # Known-pre-commit-point failure - safe to clean up written files
                 self._rollback()
                 raise e
+            except BaseException:
+                # KeyboardInterrupt / SystemExit can be delivered at ANY point,
+                # including after the pointer flip and before _finish_committed()
+                # (e.g. while the lock is being released). Whether the commit
+                # point was passed is unknown here, so this is handled like an
+                # ambiguous outcome: keep every written file and deactivate the
+                # transaction - otherwise __exit__ would roll back and delete the
+                # data file a committed snapshot references. True orphans are
+                # garbage-collected later.
+                self._rollback(delete_files=False)
+                raise
 
         # This line should not be reached if max_retries > 0, but added for completeness
         self._rollback()
